@@ -167,7 +167,7 @@ PLAN = {
     "C12": {"verus": ["table_rpki"], "kani": ["c12_covering_key_v4", "c12_covering_key_v6"], "level": "proof"},
     "C14": {"verus": ["table_policy"], "level": "proof"},
     "C16": {"verus": ["daemon_fsm", "packet_negotiate", "daemon_peer_cfg"], "kani": ["c16_ipnet_contains_v4", "c16_ipnet_contains_v6"], "level": "proof"},
-    "C04": {"verus": ["packet_encode", "packet_aspath"], "level": "proof",
+    "C04": {"verus": ["packet_encode", "packet_aspath"], "level": "proof", "kani": ["c04_ipv4_entry_round_trip", "c04_ipv6_entry_round_trip"],
             "fn_filter": {"packet_aspath": ["encode", "encode_wire", "value", "binary", "as_path_has_wide_as", "lemma_seg_any_wide_mono"]}},
     "C02": {"verus": ["table_cmp", "table_rslocal", "packet_aspath"], "level": "proof",
             "fn_filter": {"packet_aspath": ["as_path_length"]}},
